@@ -271,3 +271,64 @@ func (p *verifAddrPConn) ReadFrom(b []byte) (int, net.Addr, error) {
 	p.pos++
 	return n, a, nil
 }
+
+// C19 — the early ChangeCipherSpec must still be acceptable when the flight is retransmitted: flights are resent
+// byte for byte with the same record sequence numbers, so a ChangeCipherSpec that was dropped because it came
+// before its turn must not have been entered in the replay window. Two steps on the real record layer: (1) the
+// server, waiting for ClientKeyExchange with nothing buffered, receives the ChangeCipherSpec record: dropped, not
+// fatal; (2) the key exchange done, the same record arrives again while the ChangeCipherSpec is expected: the
+// keys are switched.
+//
+//verif:harness props=C19 paths=2000 reach=switched
+func VerifHarness_C19_early_ccs_accepted_on_retransmission() {
+	ccs := []byte{byte(recordTypeChangeCipherSpec), 1, 1, 0, 0, 0, 0, 0, 0, 0, byte(verifSplitInt("ccsSeq", 2, 4)), 0, 1, 1}
+	t := &verifPConn{in: [][]byte{ccs, ccs}}
+	c := &Conn{pconn: t, remoteAddr: verifAddr{}, config: &Config{Rand: verifRandSrc{}}}
+	c.vers, c.haveVers = VersionTLCP, true
+	c.hsState.Store(int32(stateWaiting))
+	c.replayWindow = newReplayWindow(64)
+	// records with lower sequence numbers (ClientHello, ...) were seen before
+	c.replayWindow.check(0)
+	c.replayWindow.check(1)
+	// step 1: reads the early ChangeCipherSpec (dropped) and then the second copy, which is just as early: both are
+	// dropped, the read ends with the transport's timeout
+	err := c.readRecordOrCCS(false)
+	verifAssert("C19.reorder.earlyCCSDropped", c.in.err == nil && isTimeout(err) && c.in.cipher == nil)
+	// step 2: the retransmission arrives when the ChangeCipherSpec is due
+	t.in = append(t.in, ccs)
+	c.in.nextCipher = &verifCBC{}
+	c.in.nextMac = &verifMAC{}
+	err = c.readRecordOrCCS(true)
+	verifAssert("C19.reorder.retransmittedCCSAccepted", err == nil && c.in.cipher != nil && c.readEpoch == 1)
+	verifReach("switched")
+}
+
+// C12 / C09 — datagram stack: more than maxUselessRecords consecutive warning alerts from the key-holding peer are a
+// fatal condition (the flooder is cut off), and it stays reported: the Read that hits the limit fails, and so does
+// every later Read, even if application data follows.
+//
+//verif:harness props=C12,C09 paths=200 unwind=60 depth=600 reach=cutoff
+func VerifHarness_C12_dtlcp_warning_flood_is_final() {
+	kind := verifSplitInt("cipher", vcGCM, vcCBC)
+	iv := verifNondetBytes("iv", 4)
+	wt := &verifPConn{}
+	w := newEstablishedD(wt, kind, iv, true, 0)
+	k := maxUselessRecords + 1
+	for i := 0; i < k; i++ {
+		w.out.Lock()
+		w.writeRecordLocked(recordTypeAlert, []byte{alertLevelWarning, 90}) // user_canceled: a warning that is ignored
+		w.out.Unlock()
+	}
+	w.Write([]byte{7})
+	rt := &verifPConn{in: wt.sent}
+	r := newEstablishedD(rt, kind, iv, false, 0)
+	buf := make([]byte, 4)
+	n, err := r.Read(buf)
+	verifReach("cutoff")
+	verifAssert("C09.flood.dtlcpFlooderIsCutOff", n == 0 && err != nil && !isTimeout(err))
+	verifAssert("C12.flood.dtlcpFatalErrorReported", n == 0 && err != nil && !isTimeout(err))
+	n2, err2 := r.Read(buf)
+	verifAssert("C12.flood.dtlcpFatalErrorStaysReported", n2 == 0 && err2 != nil && !isTimeout(err2))
+	n3, err3 := w.Write([]byte{1})
+	_, _ = n3, err3
+}
